@@ -594,6 +594,7 @@ func (mq *MessageQueue) sendMessage() {
 		// sending the rest of the wants in the next iteration of the event
 		// loop.
 		pendingWork := mq.pendingWorkCount()
+		verifPoint(4, pendingWork, 0, 0)
 		if pendingWork < sendMessageCutoff {
 			if pendingWork > 0 {
 				mq.signalWorkReady()
@@ -890,6 +891,7 @@ FINISH:
 		}
 	}
 
+	verifPoint(3, 0, 0, 0)
 	return mq.msg, onSent
 }
 
